@@ -125,8 +125,8 @@ def tok(type_, value=None):
                lexpos=0, colno=1)
 
 
-def r042(report, lm, pm):
-    rule = report.rule('R04.2', 'insertion predicate auto_semi == 7.9.1 '
+def r042(report, lm, pm, rid='R04.2'):
+    rule = report.rule(rid, 'insertion predicate auto_semi == 7.9.1 '
                        'rules 1-2 (decision table)', floor=15)
     methods = lexer_methods(lm)
     for need in ('auto_semi', '_is_prev_token_lt', '_create_semi_token'):
@@ -136,10 +136,17 @@ def r042(report, lm, pm):
     cells = 0
     for ttype in (None, 'SEMI', 'AUTOSEMI', 'RBRACE', 'ID', 'LBRACE',
                   'PLUSPLUS'):
-        for ptype in (None, 'LINE_TERMINATOR', 'ID', 'BLOCK_COMMENT'):
+        for ptype, depth in [(p_, d_) for p_ in (
+                None, 'LINE_TERMINATOR', 'ID', 'BLOCK_COMMENT')
+                for d_ in (1, 2, 3)]:
             ev = Evaluator(lm.module, 'Lexer', methods, functions)
             token = tok(ttype) if ttype else None
-            lexer = mk_lexer_obj(prev=tok(ptype) if ptype else None)
+            # the predicate must not depend on the parenthesis bookkeeping
+            # (depth > 1: inside the header of if/for/while)
+            stack = [[None, []]] + [[tok('LPAREN'), []]
+                                    for _ in range(depth - 1)]
+            lexer = mk_lexer_obj(prev=tok(ptype) if ptype else None,
+                                 stack=stack)
             try:
                 ret, _ = ev.call(methods['auto_semi'], [token],
                                  self_obj=lexer)
@@ -150,9 +157,12 @@ def r042(report, lm, pm):
                     ttype == 'RBRACE' or ptype == 'LINE_TERMINATOR'))
             got = isinstance(ret, Obj)
             ok = got == expected
-            detail = 'auto_semi(token=%s) with previous token %s %s a ' \
+            detail = 'auto_semi(token=%s) with previous token %s%s %s a ' \
                 'semicolon; 7.9.1 requires %s' % (
-                    ttype, ptype, 'inserts' if got else 'does not insert',
+                    ttype, ptype, '' if depth == 1 else
+                    ' inside %d open header parenthes%s' % (
+                        depth - 1, 'is' if depth == 2 else 'es'),
+                    'inserts' if got else 'does not insert',
                     'insertion' if expected else 'no insertion')
             if ok and got:
                 if ret.type != 'AUTOSEMI' or ret.value != ';':
@@ -169,8 +179,10 @@ def r042(report, lm, pm):
             if ok and not got and ret is not None:
                 ok = False
                 detail = 'returns %r instead of None' % (ret,)
-            rule.check(ok, 'auto_semi(%s|prev=%s)' % (ttype, ptype),
-                       'auto_semi(token=%s, prev_token=%s)' % (ttype, ptype),
+            rule.check(ok, 'auto_semi(%s|prev=%s|depth=%d)' % (
+                ttype, ptype, depth),
+                       'auto_semi(token=%s, prev_token=%s, header depth=%d)'
+                       % (ttype, ptype, depth - 1),
                        detail, where='lexers/es5.py:Lexer.auto_semi')
             cells += 1
     # p_error: the result of auto_semi is returned to the parser first
